@@ -2,14 +2,15 @@
 # try_mutant.sh <patch.diff> <out_prefix> <prop> [<prop>...]: apply a seeded change to /repo, run the quick checks, undo it.
 set -u
 PATCH=$1; OUT=$2; shift 2
-cd /repo || exit 9
+R=${TRY_REPO:-/repo}
+cd $R || exit 9
 if [ -n "$(git status --porcelain --untracked-files=no)" ]; then echo "/repo is dirty"; exit 9; fi
 if ! git apply --3way "$PATCH" 2>/dev/null; then git reset -q --hard HEAD; echo "PATCH DOES NOT APPLY"; exit 8; fi
 git reset -q
 cd /verif
 for p in "$@"; do
-  ( time ./check $p quick ) > ${OUT}_$p.log 2>&1
+  ( time VERIF_REPO=$R ./check $p quick ) > ${OUT}_$p.log 2>&1
   echo "$p exit=$? $(grep -E '^VIOLATION|^HARNESS|^KNOWN' ${OUT}_$p.log | head -2 | tr '\n' ' ')"
 done
-git -C /repo reset -q --hard HEAD
-git -C /repo status --porcelain --untracked-files=no | head -3
+git -C $R reset -q --hard HEAD
+git -C $R status --porcelain --untracked-files=no | head -3
